@@ -486,7 +486,7 @@ class DeserializationMethodVisitor(
                         )
                     )
             object_constraints = constraints_validators(constraints)[dict]
-            all_alliases = set(alias_by_name.values())
+            all_alliases = {f.alias for f in normal_fields}
             constructor: Optional[Constructor] = None
             if is_typed_dict(cls):
                 constructor = NoConstructor(cls)
